@@ -1,2 +1,4 @@
 pub mod envsim;
 pub mod envsim_driver;
+pub mod iosim;
+pub mod iosim_driver;
